@@ -30,7 +30,7 @@ KNOWN = ("C01-NONLIT", "C01-NONLIT-KLS", "C02-MIXEDKIND", "C02-GONEREF")
 
 @st.composite
 def cases(draw):
-    g = draw(gg.general(bnodes=False, lit_kinds=["word", "lang", "integer"], max_stmts=22))
+    g = draw(gg.general(bnodes=False, lit_kinds=["word", "lang", "integer"], max_stmts=22, odd_schemes=draw(st.integers(0, 3)) == 0))
     cfg = draw(gg.switches())
     cfg["instances_report_mode"] = "mixed"
     mode = draw(st.sampled_from(["classes", "all", "sm"]))
